@@ -46,6 +46,11 @@ class _Unrecognised(Exception):
 
 
 def run(prog, res):
+  from ..rules import seqkind
+  seqkind.selfcheck()
+  for q in ('lattice_lib.evaluate_with_simplex_interpolation', 'lattice_lib.batch_outer_operation'):
+    seqkind.check_function(prog, res, prog.function(q))
+  res.floor('T3', 2)
   steps = [
       ('H1', LL + '._clip_onto_lattice_range', _clip),
       ('H2', LL + '.compute_interpolation_weights', _hat),
